@@ -340,21 +340,45 @@ def defines_req(defines):
 
 def native_pp(case, conc, once=False):
     """replay a PPCase natively under a concrete assignment; returns svreplay's response"""
-    files = {}
-    for p, c in conc['files'].items():
-        files[p] = c if c is not None else b'\xff\xfe invalid utf8 \xc3\x28'
-    with Scratch(files) as sc:
+    with Scratch({}) as sc:
+        # absolute paths of a case ('/abs/...') live under the scratch directory natively
+        ABS = '/abs/'
+        real_abs = sc.dir + '/abs/'
+
+        def sub(x):
+            return x.replace(ABS, real_abs) if isinstance(x, str) else x
+
+        def unsub(x):
+            if isinstance(x, str):
+                return x.replace(real_abs, ABS)
+            if isinstance(x, list):
+                return [unsub(y) for y in x]
+            if isinstance(x, dict):
+                return {k: unsub(v) for k, v in x.items()}
+            return x
+        for p, c in conc['files'].items():
+            content = sub(c) if c is not None else b'\xff\xfe invalid utf8 \xc3\x28'
+            fp = sub(p) if p.startswith('/') else os.path.join(sc.dir, p)
+            if not fp.startswith(sc.dir):
+                raise Inconclusive('refusing to write outside the scratch directory: %s' % fp)
+            os.makedirs(os.path.dirname(fp), exist_ok=True)
+            with open(fp, 'wb' if isinstance(content, bytes) else 'w') as fh:
+                fh.write(content)
         req = {'cmd': 'preprocess', 'cwd': sc.dir, 'path': case.path, 'defines': defines_req(conc['defines']),
-               'include_paths': case.include_paths, 'strip_comments': conc['strip_comments'],
+               'include_paths': [sub(x) for x in case.include_paths], 'strip_comments': conc['strip_comments'],
                'ignore_include': conc['ignore_include']}
         if case.entry == 'str':
-            req.update({'mode': 'str', 'text': case.text, 'resolve_depth': conc['resolve_depth'],
+            req.update({'mode': 'str', 'text': sub(case.text), 'resolve_depth': conc['resolve_depth'],
                         'include_depth': conc['include_depth']})
         else:
             req['mode'] = 'file'
-        if once:
-            return _native.once(req)
-        return _native.request(req, cache=False)
+        r = _native.once(req) if once else _native.request(req, cache=False)
+        if ABS in case.text or any(p.startswith('/') for p in conc['files']):
+            r = unsub(r)
+            # offsets after a substituted path shift by a constant; cases with absolute paths compare text and errors only
+            if isinstance(r, dict) and 'origins' in r:
+                r['origins'] = None
+        return r
 
 
 # ------------------------------------------------------------------------------------------------
